@@ -103,6 +103,13 @@ class GridKernel(Kernel):
     def is_ragged(self):
         return not all(self.grid[0].size() == proj.size() for proj in self.grid)
 
+    def _order_kronecker_factors(self, covars):
+        # full_grid (see create_data_from_grid) enumerates the grid with the first dimension varying fastest,
+        # i.e. K = K_{d-1} Kron ... Kron K_0, whereas the interpolation indices used in interpolation mode
+        # (see Interpolation.interpolate) number the grid points with the first dimension varying slowest,
+        # i.e. K = K_0 Kron ... Kron K_{d-1}.
+        return covars if self.interpolation_mode else covars[::-1]
+
     def forward(self, x1, x2, diag=False, last_dim_is_batch=False, **params):
         if last_dim_is_batch and not self.interpolation_mode:
             raise ValueError("last_dim_is_batch is only valid with interpolation model")
@@ -154,8 +161,7 @@ class GridKernel(Kernel):
                     covars = covars.squeeze(-2)  # Get rid of the dimension corresponding to the first point
                     # Un-pad the grid
                     covars = [ToeplitzLinearOperator(covars[..., i, : proj.size(-1)]) for i, proj in enumerate(grid)]
-                    # Due to legacy reasons, KroneckerProductLinearOperator(A, B, C) is actually (C Kron B Kron A)
-                    covar = KroneckerProductLinearOperator(*covars[::-1])
+                    covar = KroneckerProductLinearOperator(*self._order_kronecker_factors(covars))
             else:
                 full_grid = torch.stack(padded_grid, dim=-1)
                 with warnings.catch_warnings():  # Hide the GPyTorch 2.0 deprecation warning
@@ -166,7 +172,7 @@ class GridKernel(Kernel):
                     covar = covars
                 else:
                     covars = [covars[..., i, : proj.size(-1), : proj.size(-1)] for i, proj in enumerate(self.grid)]
-                    covar = KroneckerProductLinearOperator(*covars[::-1])
+                    covar = KroneckerProductLinearOperator(*self._order_kronecker_factors(covars))
 
             if not self.training:
                 self._cached_kernel_mat = covar
